@@ -182,6 +182,27 @@ def template_sites(repo, set_names):
                 path = os.path.join(d, f)
                 text = open(path).read()
                 in_sorted_block = inside_filter_blocks(text)
+                # {% set alias = <set-typed value> %} (unsorted): every later loop over the alias iterates the set
+                aliases = {}
+                for i, line in enumerate(text.splitlines(), 1):
+                    am = re.search(r"\{%-?\s*set\s+(\w+)\s*=\s*([^%]*?)\s*-?%\}", line)
+                    if am and pat.search(am.group(2)) and not re.search(r"\|\s*sort\b", am.group(2)):
+                        aliases[am.group(1)] = pat.search(am.group(2)).group(0)[1:]
+                for alias, orig in aliases.items():
+                    for i, line in enumerate(text.splitlines(), 1):
+                        lm = re.search(r"\bfor\s+\w+(?:\s*,\s*\w+)?\s+in\s+%s\b(.*)" % re.escape(alias), line)
+                        if not lm or "{%" not in line:
+                            continue
+                        rest = lm.group(1)
+                        if re.match(r"\s*\|\s*sort\b", rest):
+                            attr = re.search(r"sort\(\s*attribute\s*=\s*['\"]([^'\"]+)['\"]", rest)
+                            kind, detail = "sorted", (attr.group(1) if attr else "identity")
+                        elif i in in_sorted_block:
+                            kind, detail = "sorted", "enclosing {% filter sort_lines %} (whole lines, identity)"
+                        else:
+                            kind, detail = "raw", f"for-loop over the alias {alias} of .{orig}"
+                        sites.append({"file": os.path.relpath(path, repo), "line": i, "name": orig, "kind": kind,
+                                      "detail": detail, "code": line.strip()[:160]})
                 for i, line in enumerate(text.splitlines(), 1):
                     if "{{" not in line and "{%" not in line:
                         continue
